@@ -77,6 +77,9 @@ class Tuple(AbstractSpace[tuple[Any, ...], None]):
         if not isinstance(other, Tuple):
             return False
 
+        if len(self.spaces) != len(other.spaces):
+            return False
+
         return all(
             space == other_space
             for space, other_space in zip(self.spaces, other.spaces)
